@@ -62,7 +62,7 @@ func nonNilError(v ssa.Value, at *ssa.BasicBlock, depth int, seen map[ssa.Value]
 			for _, b := range f.Blocks {
 				if ret, ok := b.Instrs[len(b.Instrs)-1].(*ssa.Return); ok && len(ret.Results) == 1 {
 					n++
-					if !nonNilError(ret.Results[0], b, depth+1, seen) {
+					if !nonNilError(RetVal(ret, 0), b, depth+1, seen) {
 						all = false
 					}
 				}
